@@ -782,8 +782,10 @@ def _r9_nested_lengths(model: Model, run: Run) -> None:
         for n, ls, kind in uses:
             n_uses += 1
             why = None
+            floc = Loc(model, fi)
             for t, _pol in flat_guards(fi.node, n, pm):
-                for c in ast.walk(t):
+                # locals that hold what is left (`available = len(data) - offset`) are written out, the lengths kept by name
+                for c in ast.walk(floc.expanded(t, depth=3, keep=sorted(lenvars))):
                     if isinstance(c, ast.Compare) and names(c) & set(lenvars) and ('len(' in norm(c) or any(nm in lenvars or nm in ('remaining', 'left') for nm in names(c))):
                         if 'len(' in norm(c):
                             why = 'compared first: %s' % norm(c)[:70]
